@@ -434,7 +434,7 @@ def rm_call(ctx):
         why = 'the Rm arm never calls the remove routine'
         for bb, c in it.calls.items():
             if is_rm_call(facts, it, bb, roles(facts, adt)) and bb in rc.reachable:
-                clocks = [a for a in c.args[1:] if param_path(a.val) and param_path(a.val)[0] == 2 and param_path(a.val)[1][-1:] == ('Rm.clock',)]
+                clocks = [a for a in c.args[1:] if value_path(a.val) and value_path(a.val)[0] == 2 and value_path(a.val)[1][-1:] == ('Rm.clock',)]
                 elems = []
                 for a in c.args[1:]:
                     v = drop_lv(a.val)
